@@ -1,6 +1,7 @@
 //! `conform`: the Rust side of the conformance checks.  Every subcommand either replays
 //! TLC-generated vectors into the real code (`*-replay`) or records what the real code does
 //! as ndjson for validation against the TLA+ specification (`*-trace`).
+mod c12;
 mod c14;
 mod c15;
 mod common;
@@ -13,6 +14,9 @@ fn main() {
     let code = match cmd {
         "c14-trace" => c14::trace(rest),
         "lang-trace" => lang::trace(rest),
+        "c12-sweep" => c12::sweep(rest),
+        "c07-record" => lang::literals(rest),
+        "c08-record" => lang::display(rest),
         "c15-helper" => c15::helper(rest),
         "c15-replay" => c15::replay(rest),
         _ => {
